@@ -59,7 +59,7 @@ def make_variant(v):
         return d
     rng = random.Random(derive(20, "variant", v))
     ops = ["rename_keys", "rename_levels", "rename_bases", "leaf_only", "separator", "folders", "vocab", "digits",
-           "third_base", "third_config", "insert_level", "remove_level", "swap_vocab", "key_patterns", "projects", "config_vocab"]
+           "third_base", "third_config", "insert_level", "remove_level", "swap_vocab", "key_patterns", "projects", "config_vocab", "leaf_per_base"]
     chosen = [o for o in ops if rng.random() < 0.35] or [rng.choice(ops)]
     d["transformations"] = chosen
     if "rename_keys" in chosen:
@@ -125,6 +125,9 @@ def make_variant(v):
             d["default_config"] = "server"
     if "key_patterns" in chosen:
         d["use_key_patterns"] = True
+    if "leaf_per_base" in chosen:
+        # "a leaf key per basetype": the last basetype names its leaf key differently from the others
+        d["basetypes"][-1]["leaf"] = "filetype"
     if "config_vocab" in chosen:
         # one path configuration with its own folder names and state vocabulary (still one-to-one): an archive
         # laid out differently from the working disks
@@ -174,14 +177,15 @@ def emit(d, dst):
     to_extrapolate = []
     proj_s, state_s = sid_patterns("sid")
     for b in d["basetypes"]:
+        LK = b.get("leaf") or K["leaf"]
         head = [ph(K["project"], proj_s), ph(K["type"], _alts([b["code"]]))]
         lv = [ph(x[0], _level_pattern(x, d)) for x in b["levels"]]
         body = head + lv + [ph(K["version"], vpat), ph(K["state"], state_s)]
         for ft, grp, _out in d["file_types"]:
-            sid_templates.append(("%s__%s" % (b["name"], ft), "/".join(body + [ph(K["leaf"], _alts(d["ext_groups"][grp]))])))
+            sid_templates.append(("%s__%s" % (b["name"], ft), "/".join(body + [ph(LK, _alts(d["ext_groups"][grp]))])))
         if b["nodes"]:
             sid_templates.append(("%s__cache_node_file" % b["name"],
-                                  "/".join(body + [ph(K["node"], None), ph(K["leaf"], _alts(d["ext_groups"]["caches"]))])))
+                                  "/".join(body + [ph(K["node"], None), ph(LK, _alts(d["ext_groups"]["caches"]))])))
             sid_templates.append(("%s__cache_node" % b["name"], "/".join(body + [ph(K["node"], None)])))
         sid_templates.append(("%s__%s" % (b["name"], K["state"]), "/".join(body)))
         to_extrapolate.append("%s__%s" % (b["name"], K["state"]))
@@ -189,9 +193,9 @@ def emit(d, dst):
         keys = [K["project"], K["type"]] + [x[0] for x in b["levels"]] + [K["version"], K["state"]]
         if b["nodes"]:
             keys.append(K["node"])
-        keys.append(K["leaf"])
+        keys.append(LK)
         key_types[b["name"]] = keys
-        leaf_keys[b["name"]] = K["leaf"]
+        leaf_keys[b["name"]] = LK
         narrowing[b["name"]] = "%s=~%s" % (K["type"], b["code"])
     sid_templates.append(("project", ph(K["project"], proj_s)))
     key_types["project"] = [K["project"]]
@@ -236,6 +240,7 @@ def emit(d, dst):
             "path_templates = {",
         ]
         for b in d["basetypes"]:
+            LK = b.get("leaf") or K["leaf"]
             base = "{@root}/" + ph(K["project"], proj_p) + "/" + fixed + "/" + ph(K["type"], _alts([bfolder[b["name"]]]))
             lvph = [ph(x[0], _level_pattern(x, d)) for x in b["levels"]]
             folders = []
@@ -256,12 +261,12 @@ def emit(d, dst):
                                      [ph(K["state"], state_p), ph(K["version"], vpat)])
                     nodef = sep.join(name_parts + [ph(K["node"], None), ph(K["state"], state_p), ph(K["version"], vpat)])
                     lines.append("    %r: %r," % ("%s__cache_node_file" % b["name"],
-                                                   vdir + mid + "/" + nodef + "." + ph(K["leaf"], _alts(d["ext_groups"]["caches"]))))
+                                                   vdir + mid + "/" + nodef + "." + ph(LK, _alts(d["ext_groups"]["caches"]))))
                     lines.append("    %r: %r," % ("%s__%s" % (b["name"], ft),
-                                                   vdir + mid + "/" + short + "." + ph(K["leaf"], _alts(d["ext_groups"][grp]))))
+                                                   vdir + mid + "/" + short + "." + ph(LK, _alts(d["ext_groups"][grp]))))
                 else:
                     lines.append("    %r: %r," % ("%s__%s" % (b["name"], ft),
-                                                   vdir + mid + "/" + fname + "." + ph(K["leaf"], _alts(d["ext_groups"][grp]))))
+                                                   vdir + mid + "/" + fname + "." + ph(LK, _alts(d["ext_groups"][grp]))))
             lines.append("    %r: %r," % ("%s__%s" % (b["name"], K["version"]), vdir))
             for i in range(len(b["levels"]) - 1, -1, -1):
                 lines.append("    %r: %r," % ("%s__%s" % (b["name"], b["levels"][i][0]), base + "/" + "/".join(folders[: i + 1])))
